@@ -194,32 +194,43 @@ class Code310(Code38):
         """
         Convert a list of (offset, line_number) encoding of
         co_linetable into the compacted 3.10-encoded format described
-        in lnotab_notes.txt.
-
+        in lnotab_notes.txt: pairs of (length of an address range,
+        line increment that applies to that range).
         """
-        co_linetable = b""
+        co_linetable = bytearray()
 
         prev_line_number = self.co_firstlineno
-        prev_offset = 0
-        offset_diff = 0
+        entries = list(self.co_linetable)
+        # A range runs up to the next entry or, for the last entry, to
+        # the end of the code.
+        ends = [offset for offset, _ in entries[1:]] + [len(self.co_code)]
+        if entries and entries[0][0] > 0:
+            # No line is known for the code before the first entry.
+            ends.insert(0, entries[0][0])
+            entries.insert(0, (0, None))
 
-        for offset, line_number in self.co_linetable:
-            line_diff = line_number - prev_line_number
-            prev_line_number = line_number
-            offset_diff = offset - prev_offset
-            prev_offset = offset
-            while offset_diff >= 256:
-                co_linetable += bytearray([255, 0])
-                offset_diff -= 255
-            co_linetable += bytearray([offset_diff, line_diff % 256])
-            while line_diff >= 127:
-                co_linetable += bytearray([0, 127])
-                line_diff -= 127
-            while line_diff < -127:
-                co_linetable += bytearray([0, -127])
-                line_diff -= 127
+        for (offset, line_number), end in zip(entries, ends):
+            length = end - offset
+            if length <= 0:
+                continue
+            if line_number is None:
+                line_diff = -128
+            else:
+                line_diff = line_number - prev_line_number
+                prev_line_number = line_number
+                while line_diff > 127:
+                    co_linetable += bytearray([0, 127])
+                    line_diff -= 127
+                while line_diff < -127:
+                    co_linetable += bytearray([0, -127 & 0xFF])
+                    line_diff += 127
+            while length > 254:
+                co_linetable += bytearray([254, line_diff & 0xFF])
+                line_diff = -128 if line_number is None else 0
+                length -= 254
+            co_linetable += bytearray([length, line_diff & 0xFF])
 
-        self.co_linetable = co_linetable
+        self.co_linetable = bytes(co_linetable)
 
     def freeze(self):
         for field in "co_consts co_names co_varnames co_freevars co_cellvars".split():
